@@ -406,7 +406,7 @@ def i_LDP(i, fmap):
     if not i.postindex:
         address += i.offset
     data1 = __mem(address, i.datasize)
-    data2 = __mem(address, i.datasize, disp=i.datasize / 8)
+    data2 = __mem(address, i.datasize, disp=i.datasize // 8)
     fmap[i.t] = fmap(data1)
     fmap[i.t2] = fmap(data2)
     if i.wback:
@@ -423,7 +423,7 @@ def i_STP(i, fmap):
     data1 = fmap(i.t)
     data2 = fmap(i.t2)
     fmap[__mem(address, i.datasize)] = data1
-    fmap[__mem(address, i.datasize, disp=i.datasize / 8)] = data2
+    fmap[__mem(address, i.datasize, disp=i.datasize // 8)] = data2
     if i.wback:
         if i.postindex:
             address += i.offset
@@ -440,7 +440,7 @@ def i_LDPSW(i, fmap):
     if not i.postindex:
         address += i.offset
     data1 = __mem(address, i.datasize)
-    data2 = __mem(address, i.datasize, disp=i.datasize / 8)
+    data2 = __mem(address, i.datasize, disp=i.datasize // 8)
     fmap[i.t] = fmap(data1).signextend(64)
     fmap[i.t2] = fmap(data2).signextend(64)
     if i.wback:
